@@ -16,7 +16,7 @@ T = {
          "End-to-end region equality is exploration only; theorems are about models."),
  "C02": ("other", "Theorems (8): ReverseSolution negates winding and area; about Model.Out: the removal loop of cleanCollinear stops only when no vertex is a duplicate or 180° spike (clean_post), buildPath emits no equal consecutive points and returns the whole cleaned ring. fixSelfIntersects/doSplitOp not modelled. End-to-end (winding ∈ {0,1}, vertex conditions, re-union) explored with the Lean oracle.",
          "End-to-end claim is exploration only."),
- "C03": ("other", "Theorems: totality of Area64, minkowski, checkPrecision (panics exactly outside −8…8) on the generated / hand models; the only fault site of the polygon RectClip state machine is characterised (Props C06 executePoly_fault_iff). Every exported entry point is explored on malformed inputs and magnitudes up to 2^61 in child processes with watchdog and memory limit. Known finding: int64 product overflow from 2^30.",
+ "C03": ("other", "Theorems: totality of Area64, minkowski, checkPrecision (panics exactly outside −8…8) on the generated / hand models; the only fault site of the polygon RectClip state machine is characterised (Props C06 executePoly_fault_iff). Every exported entry point is explored on malformed inputs, touching (glued) polygons and magnitudes up to 2^61 in child processes with watchdog and memory limit. Known finding: int64 product overflow from 2^30.",
          "Totality of the whole API is exploration (fault enumeration over a malformed-input stream), not a theorem."),
  "C04": ("other", "Theorems (7): IsHole alternates with the level (generated code); about Model.Tree (buildTree / recursiveCheckOwners / checkSplitOwner): a record is only ever attached below a placed record with points that contains it, and every record with points is placed exactly once, for every record table and every strict containment order; about Model.PIPOp: pointInOpPolygon is exact within the coordinate domain. NOT true and not proved: that the accepted container is the innermost one — five known findings (two-level misplacements around horizontal touching), three of them pinned to the generated inputs of the registered runs. End-to-end nesting explored with the Lean oracle.",
          "Innermost-parent clause is violated by the code (known findings); end-to-end claim is exploration."),
@@ -36,17 +36,17 @@ T = {
          "Geometric claims (on the line, inside the rectangle) rest on float intersection code and are exploration."),
  "C12": ("other", "Theorems (12): every field of the four engine structs is classified input / option / scratch / per-call and reset accordingly, no package state is written, no function writes into an element of a slice parameter (regenerated fact tables, decide); the scanline list stays ascending and is visited largest first without repeats (Model.Scan). Explored: random histories against a fresh engine with the same AddPaths calls.",
          "Facts are syntactic; history independence of the whole engine is exploration."),
- "C13": ("other", "Theorems (11): the arithmetic leaves and the list algorithms TrimCollinear64, StripDuplicates, cleanCollinear's loop, buildPath commute with EVERY 64-bit translation (two's complement); exact area is translation invariant; and the negative results: the int64 cross product is wrong from 2^32 (witness). Explored: metamorphic region comparison under translation to 2^52 and scaling. Known finding: int64 product overflow.",
+ "C13": ("other", "Theorems (11): the arithmetic leaves and the list algorithms TrimCollinear64, StripDuplicates, cleanCollinear's loop, buildPath commute with EVERY 64-bit translation (two's complement); exact area is translation invariant (the float ring area areaOP is a hand model tied bit for bit by models-corr areaop at magnitudes up to 2^40); and the negative results: the int64 cross product is wrong from 2^32 (witness). Explored: metamorphic region comparison under translation to 2^52 and scaling, including dense self-intersecting polygons far from the origin (self-intersection repair). Known finding: int64 product overflow.",
          "Magnitude independence is false beyond 2^30 (known finding) and explored below."),
  "C14": ("proof", "Theorems (15) for all operands: 128-bit multiply exact; triSign / productsAreEqual / isCollinear exact except for a factor of exactly +1 (negation proved with witness = known finding); CrossProduct sign exact below 2^29; Area64's accumulator is the exact shoelace sum; bounds exact; PointInPolygon (hand model, 800-line proof) returns IsOn / IsInside / IsOutside exactly as the winding-number specification dictates. Tie: translator regenerated each run + gen-corr + models-corr pip; c14-search replays the witnesses on the real code.",
          "PointInPolygon is a hand model tied by correspondence; float rounding of the final halving of Area64 is not a theorem."),
  "C15": ("proof", "Theorems (10) about the hand model (which calls the generated isCollinear): sub-sequence (cyclic for closed), end points kept, < 3 ⇒ empty, exact area preserved whenever isCollinear is sound; the natural statements that are false are proved false with witnesses that replay on the real code (two-vertex result, non-idempotence, three collinear vertices left) = known findings. Winding-number preservation is explored.",
          "Model tied by correspondence (models-corr trim)."),
- "C16": ("proof", "Theorems (7) about the hand model for any distance function: sub-sequence, paths < 4 returned as they are, each round removes one vertex (termination), and the ε post-condition when the loop stops (770-line invariant proof), which needs symmetry of the distance in its two line points (counter-example proved). Stating it exposed the ε² overflow defect (repaired). Translation / scaling invariance and ε = 0 area are explored.",
+ "C16": ("proof", "Theorems (7) about the hand model for any distance function: sub-sequence, paths < 4 returned as they are, each round removes one vertex (termination), and the ε post-condition when the loop stops (770-line invariant proof), which needs symmetry of the distance in its two line points (counter-example proved). Stating it exposed the ε² overflow defect (repaired). Translation / scaling invariance (long oblique edges anywhere within 2^29, both variants) and ε = 0 behaviour are explored; PerpendicDistFromLineSqrD is regenerated and compared bit for bit.",
          "Model tied by correspondence (models-corr simp64)."),
  "C17": ("other", "Theorems (11): the specified region is invariant under start rotation, repeated / closing vertices, reversal of everything (with the fill rule mirrored), permutation of the path set, translation, swap of subject and clip; no source of nondeterminism in the code (facts). Explored: transformed spellings compared as regions, repeated runs compared exactly.",
          "That the code realises the specification is C01's exploration."),
- "C18": ("other", "Theorems (11): non-interference of step lists with disjoint footprints under every schedule (abstract semantics); the library writes no package state, starts no goroutine, and never stores into an element of a slice parameter or sorts / reverses one in place (regenerated facts). Explored: race-detector hammer (32 goroutines, shared read-only inputs, all join / end types), results compared with sequential runs; a race report is the failing history.",
+ "C18": ("other", "Theorems (11): non-interference of step lists with disjoint footprints under every schedule (abstract semantics); the library writes no package state, starts no goroutine, and never stores into an element of a slice parameter or sorts / reverses one in place (regenerated facts). Explored: race-detector hammer (32 goroutines; shared read-only inputs, all join / end types; plus per-goroutine inputs and argument values so that calls with different arguments overlap), results compared with sequential runs; a race report is the failing history.",
          "Heap disjointness of real calls beyond these facts is exploration."),
  "C19": ("other", "Theorems (5): the pointwise identities between the four operations at the specification level. Explored: seven-label region check on the four results of the same inputs (Lean oracle); the decision table that realises them is covered by C01's theorems and wind-corr.",
          "That the code realises the specification is exploration."),
